@@ -307,8 +307,9 @@ class PeriodicGrid(Grid):
         # Compute the minimal and maximal values of the fractional coordinates.
         # These are the intervals spanned by the fractional coordinates along
         # each lattice vector: ``frac_intvls``.
-        if frac_points.shape[1] == 0:
-            frac_intvls = np.zeros((0, 2))
+        if frac_points.size == 0:
+            # no lattice vectors, or no points (e.g. an empty selection)
+            frac_intvls = np.zeros((frac_points.shape[1], 2))
         else:
             frac_intvls = np.array([frac_points.min(axis=0), frac_points.max(axis=0)]).T
         self._frac_intvls = frac_intvls
